@@ -29,7 +29,7 @@ VARIANTS = {
     "cov": dict(cxx="g++", cc="gcc", flags="-O0 -g --coverage"),
     "fuzz": dict(cxx="clang++-14", cc="clang-14",
                  flags="-O1 -g -fno-omit-frame-pointer -fsanitize=fuzzer-no-link,address,undefined"
-                       " -fno-sanitize=object-size -fno-sanitize-recover=all"),
+                       " -fno-sanitize=object-size -fno-sanitize-recover=all -D_GLIBCXX_ASSERTIONS"),
 }
 
 
@@ -109,7 +109,7 @@ def build(variant, targets=("BxDecay0", "bxdecay0-run"), quiet=True):
     os.utime(root, None)
     _prune()
     bdir = variant_dir(variant)
-    stamp = os.path.join(bdir, ".built." + "+".join(sorted(targets)))
+    stamp = os.path.join(bdir, ".built." + "+".join(sorted(targets)) + "." + hashlib.sha1(v["flags"].encode()).hexdigest()[:8])
     with Lock(os.path.join(root, variant + ".lock")):
         if os.path.exists(stamp):
             return bdir
